@@ -3,7 +3,7 @@ import NmVerif.Index.SelCommon
   NmVerif.Index.Roll — MODEL of include/nmtools/array/index/roll.hpp (+ view/roll.hpp).
 
   Stable names:
-    `Index.normalizeAxis1 axis dim : Option Nat`    index::normalize_axis (single axis; only used as a validity test here)
+    (`Index.normalizeAxis1` lives in Index/SelCommon.lean)
     `Index.shapeRoll shape axes : Option Shape`     index::shape_roll   (Nothing iff some axis is outside [-dim, dim))
     `Index.normalizeRollIndex i n : Int`            the lambda `normalize_roll_index` (roll.hpp:118-131): C++ `%` then `+ n` if negative
     `Index.indexRollU shape d shifts axes : Option Idx` index::roll with an axis list (a single axis is the one-element list)
@@ -16,17 +16,13 @@ import NmVerif.Index.SelCommon
     * `index = int(d[axis]) - shift`; `index %= n` (truncating), `index < 0 ⇒ index + n` — a true modulo for `n > 0`
       (the single-wrap defect DESIGN F5 was repaired in /repo by "fix: roll wraps shifts larger than the extent");
       the value is then stored into a `size_t` index.
-    * `shape[axis]`, `d[axis]`, `result[axis]` are addressed through `nmtools::at` (Python-style wrap), so negative
-      axes work; every axis of the list reads `d` (not the partial result), so a repeated axis keeps only the last shift.
+    * `shape[axis]`, `result[axis]` are addressed through `nmtools::at` (Python-style wrap), so negative axes work;
+      every axis of the list reads the PARTIAL RESULT (repaired: "roll.repeated-axis"), so the shifts of an axis that
+      is listed more than once add up, as in NumPy.
     * axis None: flatten (= reshape to `[size]`), roll along axis 0, reshape back.
   Core Lean only.
 -/
 namespace NmVerif.Index
-
-/-- `index::normalize_axis(axis, ndim)` for one axis -/
-def normalizeAxis1 (axis : Int) (dim : Nat) : Option Nat :=
-  if axis < -(dim : Int) ∨ (dim : Int) ≤ axis then none
-  else if axis < 0 then some ((dim : Int) + axis).toNat else some axis.toNat
 
 /-- `index::shape_roll`: the source shape, or Nothing when an axis is out of range -/
 def shapeRoll (shape : Shape) (axes : List Int) : Option Shape :=
@@ -43,7 +39,7 @@ def normalizeRollIndex (index : Int) (n : Nat) : Int :=
 def indexRollLoop (shape : Shape) (d : Idx) : List Int → List Int → Idx → Option Idx
   | [], _, res => some res
   | ax :: axes, sh :: shifts, res =>
-      match atPy shape ax, atPy d ax with
+      match atPy shape ax, atPy res ax with
       | some n, some i => indexRollLoop shape d axes shifts (setPy res ax (i2u (normalizeRollIndex ((i : Int) - sh) n)))
       | _, _ => none
   | _ :: _, [], _ => none
